@@ -415,6 +415,7 @@ func (bwu *BaseWorkUnit) LastUpdateError() error {
 // MonitorLocalStatus watches a unit dir and keeps the in-memory workUnit up to date with status changes.
 func (bwu *BaseWorkUnit) MonitorLocalStatus() {
 	statusFile := path.Join(bwu.UnitDir(), "status")
+	verifhook.At("monitor.start", statusFile)
 	var watcherEvents chan fsnotify.Event
 	watcherEvents = make(chan fsnotify.Event)
 
